@@ -32,6 +32,10 @@ def gen_case(rng):
             cs = {'op': 'f_iloc', 'f': f, 'rk': C.rand_iloc_key(rng, len(f['index'])), 'ck': C.rand_iloc_key(rng, len(f['columns']))}
         elif r2 < 0.8:
             cs = {'op': 'f_loc', 'f': f, 'rk': C.rand_loc_key(rng, f['index']), 'ck': C.rand_loc_key(rng, f['columns'])}
+            if f.get('index_auto') and f['index'] and rng.random() < 0.3:
+                cs['rk'] = rng.choice([['locslice', ['none'], ['i', 0], ['none']], ['locslice', ['i', 0], ['i', 0], ['none']]])
+            if f.get('columns_auto') and f['columns'] and rng.random() < 0.3:
+                cs['ck'] = rng.choice([['locslice', ['none'], ['i', 0], ['none']], ['locslice', ['i', 0], ['i', 0], ['none']]])
         elif r2 < 0.92:
             cs = {'op': 'f_getitem', 'f': f, 'ck': C.rand_loc_key(rng, f['columns'])}
         else:
@@ -42,6 +46,10 @@ def gen_case(rng):
     op = rng.choice(['s_iloc', 's_loc', 's_getitem'])
     n = len(s['index'])
     cs = {'op': op, 's': s, 'rk': C.rand_iloc_key(rng, n) if op == 's_iloc' else C.rand_loc_key(rng, s['index'])}
+    if op != 's_iloc' and s.get('index_auto') and n and rng.random() < 0.3:
+        # label slices around the label 0 of an auto-integer index (0 is a label like any other: a stop of 0 includes it, nothing more)
+        z = ['i', 0]
+        cs['rk'] = rng.choice([['locslice', ['none'], z, ['none']], ['locslice', z, z, ['none']], ['locslice', z, ['none'], ['i', -1]], ['locslice', ['i', n - 1], z, ['i', -1]]])
     return cs, None
 
 
